@@ -155,7 +155,10 @@ where
         tls_config.alpn_protocols = vec![b"http/1.1".to_vec()];
         let quic_server_config = quinn::ServerConfig::with_crypto(Arc::new(QuicServerConfig::try_from(tls_config)?));
         let addr = format!("{}:{}", config.host, config.port).parse()?;
+        #[cfg(not(octo_squirrel_verif))]
         let endpoint = quinn::Endpoint::server(quic_server_config, addr)?;
+        #[cfg(octo_squirrel_verif)]
+        let endpoint = octo_squirrel::verif::quic::server_endpoint(quic_server_config, addr)?;
         while let Some(incoming) = endpoint.accept().await {
             let codec = new_codec(context.as_ref())?;
             tokio::spawn(async {
